@@ -4,6 +4,7 @@
 package e1
 
 import (
+	"sort"
 	"bufio"
 	"bytes"
 	"encoding/json"
@@ -233,7 +234,7 @@ func Merge(r *core.Report, results []*Result) {
 		for _, v := range res.Viols {
 			r.Violate(v.Signature, v.Desc, v)
 		}
-		perScenario = append(perScenario, map[string]any{"name": res.Name, "executions": res.Execs, "pruned": res.Pruned, "states": res.States, "bound_completed": res.BoundDone, "distinct_outcomes": len(res.Outcomes), "max_points": res.MaxPoints, "wall_s": res.WallS, "capped": res.Capped, "best_effort_capped": res.BestEffort, "per_bound": res.PerBound})
+		perScenario = append(perScenario, map[string]any{"name": res.Name, "executions": res.Execs, "pruned": res.Pruned, "states": res.States, "bound_completed": res.BoundDone, "distinct_outcomes": len(res.Outcomes), "outcome_examples": outcomeExamples(res.Outcomes, 6), "max_points": res.MaxPoints, "wall_s": res.WallS, "capped": res.Capped, "best_effort_capped": res.BestEffort, "per_bound": res.PerBound})
 		if res.Sample != nil {
 			r.Sample(res.Sample)
 		}
@@ -323,4 +324,24 @@ func Linearizable(h []Op, m Model) bool {
 		return false
 	}
 	return rec(0, m.Init)
+}
+
+
+// outcomeExamples lists up to n distinct outcomes (with their execution counts) for the evidence file.
+func outcomeExamples(m map[string]int, n int) []string {
+	var ks []string
+	for k := range m {
+		ks = append(ks, k)
+	}
+	sort.Strings(ks)
+	if len(ks) > n {
+		ks = ks[:n]
+	}
+	for i, k := range ks {
+		if len(k) > 300 {
+			k = k[:300]
+		}
+		ks[i] = fmt.Sprintf("%dx %s", m[ks[i]], k)
+	}
+	return ks
 }
